@@ -178,6 +178,9 @@ func runWriterChecks(prog *Program, prop string) []tableResult {
 		if wc.Closers {
 			name = "closers/" + wc.Field
 		}
+		if wc.Updaters {
+			name = "updaters/" + wc.Field
+		}
 		var bad []string
 		nStores := 0
 		for fn := range ssautil.AllFunctions(prog.ssa) {
@@ -205,6 +208,34 @@ func runWriterChecks(prog *Program, prop string) []tableResult {
 					}
 					st := pt.Underlying().(*types.Struct)
 					if nt.Obj().Name()+"."+st.Field(fa.Field).Name() != wc.Field {
+						continue
+					}
+					if wc.Updaters {
+						full := strings.TrimPrefix(strings.TrimPrefix(top.Pkg.Pkg.Path(), prog.module), "/") + "." + rel
+						in := allowed[full] || allowed[rel]
+						for _, r := range *fa.Referrers() {
+							ld, ok := r.(*ssa.UnOp)
+							if !ok || ld.Op != token.MUL {
+								continue
+							}
+							for _, u := range *ld.Referrers() {
+								ci, ok := u.(ssa.CallInstruction)
+								if !ok {
+									continue
+								}
+								callee := ci.Common().StaticCallee()
+								if callee == nil || len(ci.Common().Args) == 0 || ci.Common().Args[0] != ssa.Value(ld) {
+									continue
+								}
+								switch callee.Name() {
+								case "Inc", "Dec", "Add", "Sub", "Set", "Update", "Store", "Record":
+									nStores++
+									if !in {
+										bad = append(bad, full+" calls "+callee.Name()+" on it")
+									}
+								}
+							}
+						}
 						continue
 					}
 					if wc.Closers {
@@ -253,6 +284,26 @@ func runWriterChecks(prog *Program, prop string) []tableResult {
 							} else {
 								bad = append(bad, top.Pkg.Pkg.Path()+"."+rel+" stores its address")
 							}
+						case *ssa.IndexAddr:
+							// an array field: element reads are fine, element stores are stores to the field
+							for _, r2 := range *u.Referrers() {
+								switch u2 := r2.(type) {
+								case *ssa.UnOp, *ssa.DebugRef:
+								case *ssa.Store:
+									if u2.Addr == ssa.Value(u) {
+										nStores++
+										if !(top.Pkg.Pkg.Path() == wc.Pkg && allowed[rel]) {
+											bad = append(bad, top.Pkg.Pkg.Path()+"."+rel+" stores to an element of it")
+										}
+									} else {
+										bad = append(bad, top.Pkg.Pkg.Path()+"."+rel+" stores the address of an element")
+									}
+								default:
+									if !(top.Pkg.Pkg.Path() == wc.Pkg && allowed[rel]) {
+										bad = append(bad, fmt.Sprintf("%s.%s lets the address of an element escape (%T)", top.Pkg.Pkg.Path(), rel, r2))
+									}
+								}
+							}
 						default:
 							if !(top.Pkg.Pkg.Path() == wc.Pkg && allowed[rel]) {
 								bad = append(bad, fmt.Sprintf("%s.%s lets its address escape (%T)", top.Pkg.Pkg.Path(), rel, r))
@@ -263,6 +314,17 @@ func runWriterChecks(prog *Program, prop string) []tableResult {
 			}
 		}
 		for _, f := range wc.Funcs {
+			if wc.Updaters {
+				i := strings.Index(f, ".")
+				key := prog.module + "/" + f[:i] + "." + f[i+1:]
+				if strings.HasPrefix(f, ".") {
+					key = prog.module + f
+				}
+				if fc := prog.cs.Funcs[key]; fc == nil {
+					bad = append(bad, f+" has no contract")
+				}
+				continue
+			}
 			fc := prog.cs.Funcs[wc.Pkg+"."+f]
 			if fc == nil {
 				bad = append(bad, f+" has no contract")
@@ -281,6 +343,9 @@ func runWriterChecks(prog *Program, prop string) []tableResult {
 		sort.Strings(bad)
 		r := tableResult{Name: name, OK: len(bad) == 0}
 		r.Detail = fmt.Sprintf("%d stores to %s.%s in the module, all inside %s", nStores, wc.Pkg, wc.Field, strings.Join(wc.Funcs, ", "))
+		if wc.Updaters {
+			r.Detail = fmt.Sprintf("%d updates of the cell in %s.%s in the module, all inside %s", nStores, wc.Pkg, wc.Field, strings.Join(wc.Funcs, ", "))
+		}
 		if wc.Closers {
 			r.Detail = fmt.Sprintf("%d close() of the channel in %s.%s in the module, all inside %s; the channel value travels nowhere else", nStores, wc.Pkg, wc.Field, strings.Join(wc.Funcs, ", "))
 		}
@@ -296,7 +361,7 @@ func runTableChecks(prog *Program, prop string) []tableResult {
 	if prop != "C14" {
 		return runWriterChecks(prog, prop)
 	}
-	var res []tableResult
+	res := runWriterChecks(prog, prop)
 	data, err := os.ReadFile(filepath.Join(specDir, "redis_commands.json"))
 	var spec cmdSpec
 	if err != nil || json.Unmarshal(data, &spec) != nil {
